@@ -10,7 +10,7 @@ kinds and sizes, and nothing is ever added.
 import PyFatModel.Proofs.FsRun
 
 namespace Proofs.FsTreeRm
-open Model.Fs Proofs.FsRun Proofs.FsInv
+open Model.Fs Proofs.FsRun Proofs.FsInv Proofs.FsRefine
 
 /-- the path a call names -/
 def target : Op → List Nat
@@ -127,5 +127,98 @@ theorem removetree_frame {v : Vol} {count : Nat} (hv : VolOK v count) {s : St} (
     · exact ⟨rfl, List.Sublist.refl _⟩
     · rw [run_sim hv _ s h (domAll_removals v _ s (expandTree_removals _ _ _ _))]
       exact specRun_frame v path _ s (abs s) (expandTree_under _ _ _ _)
+
+/-! ## the other half: after a successful call nothing at or below `path` is left -/
+
+/-- every entry's parent directory is an entry too (or the root) -/
+def Closed (t : Spec) : Prop :=
+  ∀ e ∈ t, e.path ≠ [] ∧ (e.path.dropLast = [] ∨ ∃ d ∈ t, d.path = e.path.dropLast)
+
+theorem closed_abs {s : St} (h : Proofs.FsTree.TreeInv s.nodes) : Closed (abs s) := by
+  intro e he
+  simp only [abs, List.mem_map] at he
+  obtain ⟨n, hn, rfl⟩ := he
+  rcases h.link n hn with ⟨_, hp⟩ | ⟨d, hd, _, _, hp⟩
+  · simp [hp]
+  · refine ⟨by simp [hp], .inr ⟨⟨d.path, d.isDir, d.size⟩, ?_, by simp [hp]⟩⟩
+    simp only [abs, List.mem_map]
+    exact ⟨d, hd, rfl⟩
+
+/-- in a parent-closed tree a directory without children has no descendants -/
+theorem no_descendants (t : Spec) (hc : Closed t) (p : List Nat) (hn : t.hasChildren p = false) :
+    ∀ (k : Nat) (e : SEnt), e ∈ t → ∀ q : List Nat, e.path = p ++ q → q.length = k + 1 → False := by
+  intro k
+  induction k with
+  | zero =>
+    intro e he q hq hl
+    match q, hl with
+    | [a], _ =>
+      simp only [Spec.hasChildren, List.any_eq_false] at hn
+      have := hn e he
+      simp [hq] at this
+  | succ k ih =>
+    intro e he q hq hl
+    have hqne : q ≠ [] := by intro h0; simp [h0] at hl
+    have hdl : e.path.dropLast = p ++ q.dropLast := by rw [hq, List.dropLast_append_of_ne_nil hqne]
+    have hql : q.dropLast.length = k + 1 := by simp [hl]
+    rcases (hc e he).2 with h0 | ⟨d, hd, hdp⟩
+    · rw [hdl] at h0
+      have : q.dropLast = [] := (List.append_eq_nil_iff.mp h0).2
+      simp [this] at hql
+    · exact ih d hd q.dropLast (hdp.trans hdl) hql
+
+/-- what a successful `removedir` of the reference filesystem means -/
+theorem specStep_removedir_ok (t : Spec) (p : List Nat) (h : (specStep t (.removedir p)).2 = .ok true) :
+    t.hasChildren p = false ∧ (specStep t (.removedir p)).1 = t.del p := by
+  simp only [specStep] at h ⊢
+  split at h
+  · simp at h
+  · split at h
+    · simp at h
+    · split at h
+      · simp at h
+      · split at h
+        · simp at h
+        · rename_i hch
+          rename_i hp _ _ heq _
+          simp only [hp, ↓reduceIte]
+          simp_all
+
+/-- **`removetree(path)` deletes the whole subtree**: when the last call it makes — `removedir(path)` on what is
+    left of the directory — succeeds, no entry at or below `path` remains.  (With `removetree_frame`: the tree
+    afterwards is the tree before minus the subtree of `path`.) -/
+theorem removetree_complete {v : Vol} {count : Nat} (hv : VolOK v count) {s : St} (h : Inv v count s)
+    (path : List Nat) (d : Node) (hr : resolve s.nodes path = some (.node d)) (hd : d.isDir = true)
+    (hok : (step v (run v s (expandTree (s.nodes.length + 1) s.nodes path (.node d)).dropLast)
+      (.removedir path)).2 = .ok true) :
+    ∀ e ∈ abs (removetree v s path).1, outside path e = true := by
+  have hexp : ∃ front, expandTree (s.nodes.length + 1) s.nodes path (.node d) = front ++ [Op.removedir path] :=
+    ⟨_, rfl⟩
+  obtain ⟨front, hfront⟩ := hexp
+  rw [hfront, List.dropLast_concat] at hok
+  have hrt : (removetree v s path).1 = (step v (run v s front) (.removedir path)).1 := by
+    unfold removetree
+    simp only [hr, Loc.isDir, hd, Bool.not_true, Bool.false_eq_true, ↓reduceIte, hfront]
+    simp [run, List.foldl_append]
+  have h1 : Inv v count (run v s front) := run_inv hv _ s h
+  have hsim := step_sim hv h1 (.removedir path) (by simp [InDomain])
+  have hns : ¬ Soft (step v (run v s front) (.removedir path)).2 := by rw [hok]; simp [Soft]
+  have hres := hsim.2 hns
+  rw [hok] at hres
+  have hspec := specStep_removedir_ok _ _ hres.symm
+  have habs : abs (removetree v s path).1 = (abs (run v s front)).del path := by
+    rw [hrt, hsim.1]; unfold specFollow; rw [if_neg hns]; exact hspec.2
+  intro e he
+  rw [habs] at he
+  simp only [Spec.del, List.mem_filter, bne_iff_ne, ne_eq] at he
+  by_cases ho : outside path e = true
+  · exact ho
+  exfalso
+  have hpre : path <+: e.path := List.isPrefixOf_iff_prefix.mp (by simpa [outside] using ho)
+  obtain ⟨q, hq⟩ := hpre
+  have hqne : q ≠ [] := by intro h0; apply he.2; simp [← hq, h0]
+  have hlen : q.length = (q.length - 1) + 1 := by
+    have := List.length_pos_iff.mpr hqne; omega
+  exact no_descendants _ (closed_abs h1.tree) path hspec.1 _ e he.1 q hq.symm hlen
 
 end Proofs.FsTreeRm
